@@ -161,8 +161,8 @@ def build_driver():
     rc, out = sh("cd %s && make -j16 $(ls Model/*.v | sed 's/\\.v$/.vo/') > /dev/null && cd ../ocaml && "
                  "coqc -Q ../coq/Model RV.Model -Q ../coq/Spec RV.Spec -Q ../coq/Proofs RV.Proofs -Q ../coq/Props RV.Props "
                  "-Q ../coq/Extract RV.Extract ../coq/Extract/Extract.v > /dev/null && "
-                 "ocamlfind ocamlopt -O2 -w -a rvmodel.mli rvmodel.ml conv.ml driver.ml d_lex.ml d_parse.ml d_cfg.ml d_yaml.ml main.ml -o driver 2>/dev/null || "
-                 "ocamlfind ocamlopt -w -a rvmodel.mli rvmodel.ml conv.ml driver.ml d_lex.ml d_parse.ml d_cfg.ml d_yaml.ml main.ml -o driver" % COQ, timeout=3000)
+                 "ocamlfind ocamlopt -O2 -w -a rvmodel.mli rvmodel.ml conv.ml driver.ml d_lex.ml d_parse.ml d_cfg.ml d_yaml.ml d_print.ml main.ml -o driver 2>/dev/null || "
+                 "ocamlfind ocamlopt -w -a rvmodel.mli rvmodel.ml conv.ml driver.ml d_lex.ml d_parse.ml d_cfg.ml d_yaml.ml d_print.ml main.ml -o driver" % COQ, timeout=3000)
     return rc == 0, out[-3000:]
 
 
